@@ -570,6 +570,7 @@ pub fn print_program(p: &Program, style: Style) -> String {
             s.push_str("let c04m = import! c04mod\n");
         }
     }
+    s.push_str(&p.extra_preamble);
     for t in &p.types {
         s.push_str(&format!("type {} =", t.name));
         for (c, args) in &t.ctors {
